@@ -1002,7 +1002,7 @@ class Arm(Robot):
             grav = self.grav
         # Merged into link_mass_grav_centers
         link_mass_array = np.array([x.gTM() for x in self._link_mass_grav_centers])
-        tau, wrenches = fmr.InverseDynamics(theta, theta_dot, theta_dot_dot, grav, end_effector_wrench,
+        tau = fmr.InverseDynamics(theta, theta_dot, theta_dot_dot, grav, end_effector_wrench,
             link_mass_array, self._box_spatial_links, self.screw_list)
         return tau
 
